@@ -55,7 +55,17 @@ func init() {
 	reg("fromdense", func(e *env, a []string) string {
 		need(a, 3)
 		ws := parseCont("B:0:" + a[2]).Words
-		orig := append([]uint64(nil), ws...)
+		whole := ws
+		if hasTok(a[3:], "spare") {
+			// the caller's words are the front of a larger buffer whose remainder holds other (non-zero) data
+			whole = make([]uint64, len(ws)+2048)
+			for i := range whole {
+				whole[i] = 0xFFFFFFFFFFFFFFFF
+			}
+			copy(whole, ws)
+			ws = whole[:len(ws)]
+		}
+		orig := append([]uint64(nil), whole...)
 		var y *roaring.Bitmap
 		if a[1] == "1" {
 			y = roaring.FromDense(ws, true)
@@ -63,8 +73,8 @@ func init() {
 			y = roaring.FromDense(ws, false)
 		}
 		e.bm[a[0]] = y
-		e.dense = append(e.dense, denseRef{name: a[0], words: ws, orig: orig})
-		return fmt.Sprintf("%s %s", d32(y), bstr(eqWords(ws, orig)))
+		e.dense = append(e.dense, denseRef{name: a[0], words: whole, orig: orig})
+		return fmt.Sprintf("%s %s", d32(y), bstr(eqWords(whole, orig)))
 	})
 	reg("frombitset", func(e *env, a []string) string {
 		need(a, 2)
